@@ -25,20 +25,22 @@ Inductive invy :=
 | YLeaf (its : list item)
 | YSub (its : list item) (name : bytes) (j : invy)
 | YTrail (its : list item) (vs : list bytes)         (* items, [--], the values after it *)
-| YTva (its : list item) (vs : list bytes).          (* items, the run of a trailing_var_arg positional *)
+| YTva (its : list item) (vs : list bytes)           (* items, the run of a trailing_var_arg positional *)
+| YHyp (its : list item) (vs : list bytes).          (* items, the run of a multi-valued positional with hyphen values *)
 
 Fixpoint render_invy (i : invy) : list bytes :=
   match i with
   | YLeaf its => render its
   | YSub its name j => render its ++ name :: render_invy j
   | YTrail its vs => render its ++ ESC :: vs
-  | YTva its vs => render its ++ vs
+  | YTva its vs | YHyp its vs => render its ++ vs
   end.
 (** the occurrences of the root level of a tree *)
 Definition invy_occs (c : cmd) (i : invy) : list occ :=
   match i with
   | YLeaf its | YSub its _ _ => occs c 1 its
   | YTrail its vs | YTva its vs => occs c 1 its ++ trailx_occs c (items_pos c 1 its) vs
+  | YHyp its vs => occs c 1 its ++ item_occs c (items_pos c 1 its) (ItPos vs)
   end.
 
 Fixpoint wfy_inv (c : cmd) (i : invy) : bool :=
@@ -63,6 +65,9 @@ Fixpoint wfy_inv (c : cmd) (i : invy) : bool :=
       wfx_items c PSValuesDone 1 its && is_done (items_pst c PSValuesDone 1 its)
       && negb (is_set s_dont_delimit_trailing c)
       && wfx_tva c (items_pos c 1 its) vs
+  | YHyp its vs =>
+      wfx_items c PSValuesDone 1 its && is_done (items_pst c PSValuesDone 1 its)
+      && wfx_hyp c (items_pos c 1 its) vs
   end.
 
 Fixpoint run_invy (c : cmd) (i : invy) : res ps :=
@@ -83,6 +88,8 @@ Fixpoint run_invy (c : cmd) (i : invy) : res ps :=
       end
   | YTrail its vs | YTva its vs =>
       do st1 <- react_all c (occs c 1 its ++ trailx_occs c (items_pos c 1 its) vs) ps_new; post_loop c st1
+  | YHyp its vs =>
+      do st1 <- react_all c (occs c 1 its ++ item_occs c (items_pos c 1 its) (ItPos vs)) ps_new; post_loop c st1
   end.
 
 Lemma wfy_inv_parts c i : wfy_inv c i = true ->
@@ -103,9 +110,12 @@ Lemma wfy_inv_parts c i : wfy_inv c i = true ->
   | YTva its vs =>
       wfx_items c PSValuesDone 1 its = true /\ items_pst c PSValuesDone 1 its = PSValuesDone /\
       is_set s_dont_delimit_trailing c = false /\ wfx_tva c (items_pos c 1 its) vs = true
+  | YHyp its vs =>
+      wfx_items c PSValuesDone 1 its = true /\ items_pst c PSValuesDone 1 its = PSValuesDone /\
+      wfx_hyp c (items_pos c 1 its) vs = true
   end.
 Proof.
-  intros H. destruct i as [its|its name j|its vs|its vs]; cbn [wfy_inv] in H.
+  intros H. destruct i as [its|its name j|its vs|its vs|its vs]; cbn [wfy_inv] in H.
   - apply andb_prop in H. destruct H as [H H3]. apply andb_prop in H. destruct H as [H1 H2].
     split; [exact H1|]. split; [destruct (is_set s_ignore_errors c); [discriminate|reflexivity]|exact H3].
   - apply andb_prop in H. destruct H as [H H3]. apply andb_prop in H. destruct H as [H1 H2].
@@ -131,6 +141,10 @@ Proof.
     apply andb_prop in H3. destruct H3 as [H4 H5].
     split; [exact H4|]. split; [destruct (items_pst c PSValuesDone 1 its); try discriminate; reflexivity|].
     split; [destruct (is_set s_dont_delimit_trailing c); [discriminate|reflexivity]|exact H8].
+  - apply andb_prop in H. destruct H as [H H3]. apply andb_prop in H. destruct H as [H1 H2].
+    split; [exact H1|]. split; [destruct (is_set s_ignore_errors c); [discriminate|reflexivity]|].
+    apply andb_prop in H3. destruct H3 as [H3 H8]. apply andb_prop in H3. destruct H3 as [H4 H5].
+    split; [exact H4|]. split; [destruct (items_pst c PSValuesDone 1 its); try discriminate; reflexivity|exact H8].
 Qed.
 
 (** a level that ends in a tail: items, then a loop that is [trailx_apply] *)
@@ -168,7 +182,7 @@ Qed.
 Theorem gmw_inv_y : forall i c f, valid_tree (S f) c = true -> wfy_inv c i = true ->
   get_matches_with (S f) c (render_invy i) ps_new = run_invy c i.
 Proof.
-  induction i as [its|its name j IH|its vs|its vs]; intros c f Hv Hw; destruct (wfy_inv_parts c _ Hw) as [Hx [Hie H]].
+  induction i as [its|its name j IH|its vs|its vs|its vs]; intros c f Hv Hw; destruct (wfy_inv_parts c _ Hw) as [Hx [Hie H]].
   - cbn [render_invy run_invy]. apply gmw_items_x; assumption.
   - destruct H as [Hwi [Hpst [Hneg [scn [sc0 [scb [Hps [Hh [Hfs [Hb [Hch Hwj]]]]]]]]]]].
     pose proof (valid_tree_child f c scn sc0 scb Hv Hfs Hb) as Hvc.
@@ -202,6 +216,17 @@ Proof.
     pose proof (apply_items_inv_x c Hx its PSValuesDone 1 ps_new st' Hwi Hi0 Ea) as Hpi. rewrite Hpst in Hpi.
     exists st'. split; [reflexivity|]. rewrite Hpst.
     apply (loop_tva c Hx vs _ _ st' Hwt Hpi).
+  - destruct H as [Hwi [Hpst Hwh]]. cbn [render_invy run_invy].
+    destruct (wfx_hyp_pos c _ _ Hwh) as [a Hg]. cbn [item_occs]. rewrite Hg.
+    rewrite get_matches_with_unfold. unfold cmdline_phase.
+    pose proof (pend_inv_none c PSValuesDone ps_new eq_refl) as Hi0.
+    rewrite (loop_items_x c Hx its vs PSValuesDone 1 false ps_new Hwi I Hi0 eq_refl).
+    rewrite rbind_assoc. rewrite Hpst.
+    rewrite <- (flush_items_then_sep c Hx its a vs (post_loop c) Hwi (get_pos_in c _ a Hg)).
+    destruct (apply_items c 1 its ps_new) as [st'|e s|n] eqn:Ea; cbn [rbind]; [|rewrite Hie; reflexivity|reflexivity].
+    pose proof (apply_items_inv_x c Hx its PSValuesDone 1 ps_new st' Hwi Hi0 Ea) as Hpi. rewrite Hpst in Hpi.
+    rewrite (loop_hyp c Hx vs _ _ st' Hwh Hpi). cbn [apply_item]. rewrite Hg. rewrite rbind_assoc.
+    destruct (sep_step c IIndex a vs st') as [s1|e s|n]; cbn [rbind]; [reflexivity|rewrite Hie; reflexivity|reflexivity].
 Qed.
 
 Theorem run_invy_sub_ok c its name j scb sub_st st : convx c = true ->
@@ -225,8 +250,10 @@ Qed.
 
 Lemma invy_occs_args c i : Forall (fun o => In (o_arg o) (c_args c)) (invy_occs c i).
 Proof.
-  destruct i as [its|its name j|its vs|its vs]; cbn [invy_occs]; try apply (occs_args c its 1);
-    (apply Forall_app; split; [apply (occs_args c its 1)|apply trailx_occs_args]).
+  destruct i as [its|its name j|its vs|its vs|its vs]; cbn [invy_occs]; try apply (occs_args c its 1);
+    try (apply Forall_app; split; [apply (occs_args c its 1)|apply trailx_occs_args]).
+  apply Forall_app. split; [apply (occs_args c its 1)|]. cbn [item_occs].
+  destruct (get_pos c (items_pos c 1 its)) as [a|] eqn:Hg; constructor; [apply (get_pos_in c _ a Hg)|constructor].
 Qed.
 
 (** what is needed of a successful root level: the fold of [react] over its occurrences, then the
@@ -236,7 +263,10 @@ Lemma run_invy_root c i st : wfy_inv c i = true -> run_invy c i = ROk st ->
     mt_args (mt st1') = mt_args (mt st1) /\ mt_pending (mt st1') = None /\ post_loop c st1' = ROk st.
 Proof.
   intros Hw H. destruct (wfy_inv_parts c _ Hw) as [Hx [Hie Hp]].
-  destruct i as [its|its name j|its vs|its vs]; cbn [invy_occs] in *.
+  destruct i as [its|its name j|its vs|its vs|its vs]; cbn [invy_occs] in *.
+  5:{ cbn [run_invy] in H.
+      destruct (react_all c (occs c 1 its ++ item_occs c (items_pos c 1 its) (ItPos vs)) ps_new) as [st1|e s|n] eqn:E1; cbn [rbind] in H; try discriminate.
+      exists st1, st1. split; [reflexivity|]. split; [reflexivity|]. split; [apply (react_all_pending_keep c _ _ _ E1 eq_refl)|exact H]. }
   - cbn [run_invy] in H.
     destruct (react_all c (occs c 1 its) ps_new) as [st1|e s|n] eqn:E1; cbn [rbind] in H; try discriminate.
     exists st1, st1. split; [reflexivity|]. split; [reflexivity|]. split; [apply (react_all_pending_keep c _ _ _ E1 eq_refl)|exact H].
